@@ -58,7 +58,43 @@ def _targets():
         # a latent inside a sub-call of a Cond branch (shared address at depth 2), condition True
         "cond_nested_c": (F.cond_nested_c, (f32(0.3), np.bool_(True)), [("y",)], [(("tup", ("c", "s", "v")), ("mh", "mala", "hmc"))]),
     }
+    T.update(_generated_targets())
     return T
+
+
+GEN_CONT = ("chain", "indep", "vecsite", "expo", "user", "kw", "bounded")
+GEN_DISC = ("disc", "fanin")
+_GT = {}
+
+
+def _generated_targets():
+    """Thorough tiers: kernels on the systematically generated compositions (mc/generated.py): every single
+    leaf address and every top-level address as the selection, nothing observed.  Continuous bodies under
+    every wrapper (mh, mala, hmc); discrete bodies under call / vmap / repeat / scan (mh, whole transition
+    matrix).  Names start with "g:"."""
+    if _GT:
+        return _GT
+    from mc import generated as G
+    from mc import ref as R
+
+    for name, (prog, argsl, nl) in G.generated().items():
+        inner = name.replace("]", "").split("[")
+        body, wraps = inner[-1], inner[:-1]
+        paths = R.leaf_paths(prog)
+        if len(wraps) > 1 or len(paths) > 6 or nl > 1500:
+            continue  # depth-1 compositions only: a depth-2 sweep of this check takes hours
+        if body in GEN_CONT:
+            kerns = ("mh", "mala", "hmc")
+        elif body in GEN_DISC and "cond" not in wraps and nl <= 150:
+            kerns = ("mh",)
+        else:
+            continue
+        sels = [(("tup", tuple(p_)), kerns) for p_ in paths]
+        tops = sorted({p_[0] for p_ in paths if len(p_) > 1})
+        sels += [(("str", t), kerns) for t in tops]
+        for vi, args in enumerate(argsl[: 2 if "cond" in wraps else 1]):
+            _GT[f"g:{name}" + ("" if vi == 0 else "#alt")] = (prog, args, [], sels)
+    return _GT
 
 
 def _coords(flat, sel_paths):
@@ -470,8 +506,14 @@ def _reference(kern, cfg, prog, args, paths, den, x_flat, x_ref, x_plp, y_flat, 
 def items(tier):
     its = []
     for tname, (prog, args, obs, sels) in _targets().items():
+        gen = tname.startswith("g:")
+        if gen and tier == "quick":
+            continue
         for si, (e, kerns) in enumerate(sels):
             for k in kerns:
+                if gen and k != "mh":
+                    its.append((tname, si, k, 0.3 if k == "mala" else (0.2, 2)))
+                    continue
                 if k == "mh":
                     its.append((tname, si, "mh", None))
                 elif k == "mala":
